@@ -152,6 +152,6 @@ def _loop_iters(prog, T, f, xm):
     for g in funcs:
         fc = FCtx(g)
         for n in ast.walk(g.node):
-            if isinstance(n, ast.For):
+            if isinstance(n, (ast.For, ast.comprehension)):   # statement loops and "".join(... for ...) alike
                 out.append(backing(prog, T, n.iter, fc))
     return out
